@@ -165,14 +165,24 @@ class VDict:
     pairwise distinct under the path condition by the interpreter's store)"""
 
     def __init__(self, d=None):
-        self.d = dict(d or {})
-        self.sym = []
+        self._d = dict(d or {})
+        self._sym = []
+        self.abstract = False  # abstract: changed in place by a loop whose contract says nothing about it
+
+    def _content(self, what):
+        if self.abstract:
+            from .ctx import OutOfSubset
+            raise OutOfSubset("content of a dict that a loop changes in place without a contract for it")
+        return what
+
+    d = property(lambda self: self._content(self._d), lambda self, v: setattr(self, "_d", v))
+    sym = property(lambda self: self._content(self._sym), lambda self, v: setattr(self, "_sym", v))
 
 
 class VSet:
     def __init__(self, items=None):
         self.items = list(items or [])
-        self.abstract = False  # abstract: only an element predicate is known
+        self.abstract = False  # abstract: nothing is known about the elements (membership, length, truth: out of subset)
 
 
 NONE_SENTINEL = z3.Int("py_None_sentinel")
